@@ -771,7 +771,7 @@ func EndToEnd(h map[string][]string) [][2]string {
 		"Via": true, "X-Served-By": true, "Trailer": true, "Upgrade": true, "Te": true, "Proxy-Authenticate": true, "Proxy-Authorization": true}
 	var out [][2]string
 	for k, vs := range h {
-		if drop[k] || strings.HasPrefix(k, "X-Olla-") {
+		if drop[k] || strings.HasPrefix(k, "X-Olla-") || strings.HasPrefix(k, "X-Ratelimit-") {
 			continue
 		}
 		for _, v := range vs {
